@@ -177,7 +177,12 @@ class Handlers(UserDict):
         # NOTE(vytas): In the unlikely case we are dealing with a subclass,
         #   return the matching type.
         handlers_cls = type(self)
-        return handlers_cls(self.data)
+        copied = handlers_cls(self.data)
+        if not self.data:
+            # NOTE: An empty initial mapping makes __init__() fall back to the
+            #   default handlers, but a copy must have the same keys and values.
+            copied.clear()
+        return copied
 
 
 def _best_match(media_type: str, all_media_types: Sequence[str]) -> Optional[str]:
